@@ -105,8 +105,10 @@ theorem prepend_outcome {f : Forest} (w : f.W) (p c : Nat) : MoveOutcome f (f.pr
           have hne : ip ≠ c := by
             intro e; subst e
             obtain ⟨v', hv', hn', _⟩ := ck.normal
-            rw [os.valueC, hv'] at hv
-            injection hv with hv; subst hv; exact hcat hn'
+            have := os.catC
+            rw [hv, hv'] at this
+            simp only [Option.map_some, Option.some.injEq] at this
+            exact hcat (this.trans hn')
           have hanc : c ∉ f1.ancestors ip := by
             rw [ancestors_step os.w hip, k1]
             intro h'
